@@ -823,6 +823,16 @@ def r13_handlers_do_something(chk):
     common.handlers_do_something(chk, 'C07.R13', rels, floor=5)
 
 
+
+def r14_parser_starts_each_module_clean(chk):
+    """shared with C12.R1: compile() parses every module of a call with the same parser object"""
+    from rules.C12 import r1_parser_reset
+    common.reuse(chk, lambda c: r1_parser_reset(c), ('C12.R1',), 'C07.R14',
+                 'the parser / lexer reset restores the start state and the line counter on every path (C12.R1): '
+                 'compile() uses one parser for all modules of a call, so a lexer left inside a MACRO body or a comment by '
+                 'one (bad or oddly terminated) module makes the next good module fail and go unwritten', floor=2)
+
+
 RULES = [r9_wellformedness, r1_containment, r2_no_package_raise_escapes, r3_status_values, r4_no_silent_drop, r4b_popped_name_accounted,
          r5_failed_result_pairing, r6_single_writer_site, r7_foreign_exceptions,
-         r8_closure_discovery, t1_typestate, r10_generators_start_clean, r11_format_arity, r_absent_values_C07_R12, r13_handlers_do_something]
+         r8_closure_discovery, t1_typestate, r10_generators_start_clean, r11_format_arity, r_absent_values_C07_R12, r13_handlers_do_something, r14_parser_starts_each_module_clean]
